@@ -47,7 +47,8 @@ theorem Op.escapes_nil {α β} (op : Op α β) (h : op.NoEsc) (lag : Bool) (raw 
     rw [this]; exact ih _
 
 /-- a raising first-stage callback in `source.pipe(f, g)`: `f` calls `on_error` on `g`'s (live) observer, `g` forwards it -/
-theorem comp_raise {α β γ} (f : Op α β) (g : Op β γ) (hg : g.FwdErr) (sf : f.σ) (sg : g.σ) (n : Notif α) (e : Err)
+theorem comp_raise {α β γ} (f : Op α β) (g : Op β γ) (sf : f.σ) (sg : g.σ) (n : Notif α) (e : Err)
+    (hg : (g.onError sg e).calls = [.error e])
     (h : (f.handle sf n).calls = [.error e]) :
     ((f ⨾ g).handle (sf, false, sg) n).calls = [.error e] := by
   have hh : (f ⨾ g).handle (sf, false, sg) n = compH g false sg (f.handle sf n) := by cases n <;> rfl
@@ -55,11 +56,11 @@ theorem comp_raise {α β γ} (f : Op α β) (g : Op β γ) (hg : g.FwdErr) (sf 
   show (pump g false sg (f.handle sf n).calls).2.1 = [.error e]
   rw [h]
   show (g.onError sg e).calls ++ _ = _
-  rw [hg sg e]; simp [pump]
+  rw [hg]; simp [pump]
 
 theorem Op.FwdErr.comp {α β γ} {f : Op α β} {g : Op β γ} (hf : f.FwdErr) (hg : g.FwdErr) (sf : f.σ) (sg : g.σ) (e : Err) :
     ((f ⨾ g).onError (sf, false, sg) e).calls = [.error e] :=
-  comp_raise f g hg sf sg (.error e) e (hf sf e)
+  comp_raise f g sf sg (.error e) e (hg sg e) (hf sf e)
 
 /-! ### an `on_error` made by a live operator is delivered and stops the run -/
 
@@ -198,7 +199,8 @@ theorem lastOrDefaultO_noEsc {α} (d : Option α) : (lastOrDefaultO d).NoEsc :=
   Op.NoEsc.of_handlers (fun _ _ => rfl) (fun _ _ => rfl)
     (fun s => by simp only [lastOrDefaultO]; split; rfl; split <;> rfl)
 theorem firstOrDefaultO_noEsc {α} (d : Option α) : (firstOrDefaultO d).NoEsc :=
-  Op.NoEsc.of_handlers (fun _ _ => rfl) (fun _ _ => rfl) (fun s => by simp only [firstOrDefaultO]; cases d <;> rfl)
+  Op.NoEsc.of_handlers (fun (s : Bool) _ => by cases s <;> rfl) (fun (s : Bool) _ => by cases s <;> rfl)
+    (fun (s : Bool) => by cases s <;> cases d <;> rfl)
 theorem singleOrDefaultO_noEsc {α} (d : Option α) : (singleOrDefaultO d).NoEsc :=
   Op.NoEsc.of_handlers (fun s x => by simp only [singleOrDefaultO]; split <;> rfl) (fun _ _ => rfl)
     (fun s => by simp only [singleOrDefaultO]; split; rfl; split <;> rfl)
@@ -211,7 +213,8 @@ theorem toSetO_noEsc {α} (eq : α → α → Bool) : (toSetO eq).NoEsc :=
 theorem toDictO_noEsc {α κ ν} (eq : κ → κ → Bool) (key : α → Except Err κ) (elem : α → Except Err ν) : (toDictO eq key elem).NoEsc :=
   Op.NoEsc.of_handlers (fun s x => by simp only [toDictO]; cases dictStep eq key elem s x <;> rfl) (fun _ _ => rfl) (fun _ => rfl)
 theorem someOp_noEsc {α} : (someOp : Op α Bool).NoEsc :=
-  Op.NoEsc.of_handlers (fun _ _ => rfl) (fun _ _ => rfl) (fun _ => rfl)
+  Op.NoEsc.of_handlers (fun (s : Bool) _ => by cases s <;> rfl) (fun (s : Bool) _ => by cases s <;> rfl)
+    (fun (s : Bool) => by cases s <;> rfl)
 theorem takeWhileO_noEsc {α} (p : α → Except Err Bool) (incl : Bool) : (takeWhileO p incl).NoEsc :=
   Op.NoEsc.of_handlers (fun s x => by
       simp only [takeWhileO]; split
@@ -241,8 +244,11 @@ theorem findO_noEsc {α} (p : α → Int → Except Err Bool) (yi : Bool) : (fin
 
 theorem seqHandle_noEsc {α} (cmp : α → α → Except Err Bool) (s : SeqSt α) (sd : Side) (n : Notif α) :
     (seqHandle cmp s sd n).esc = none := by
-  cases sd <;> cases n <;> simp only [seqHandle]
-  all_goals (repeat' split) <;> rfl
+  unfold seqHandle
+  split
+  · rfl
+  · cases sd <;> cases n <;> simp only [seqHandleU, emitD]
+    all_goals (repeat' split) <;> rfl
 
 theorem seqEscapes_nil {α} (cmp : α → α → Except Err Bool) (lag : Bool) (tr : List (Side × Notif α)) :
     seqEscapes cmp lag tr = [] := by
@@ -259,9 +265,10 @@ theorem seqEscapes_nil {α} (cmp : α → α → Except Err Bool) (lag : Bool) (
     rw [this]; exact ih _
 
 theorem lastOrDefaultO_fwd {α} (d : Option α) : (lastOrDefaultO d).FwdErr := fun _ _ => rfl
-theorem firstOrDefaultO_fwd {α} (d : Option α) : (firstOrDefaultO d).FwdErr := fun _ _ => rfl
+/-- a live (not yet decided) `first` forwards the source's error; once decided it ignores it (ace7822) -/
+theorem firstOrDefaultO_fwd_live {α} (d : Option α) (e : Err) : ((firstOrDefaultO d).onError false e).calls = [.error e] := rfl
 theorem singleOrDefaultO_fwd {α} (d : Option α) : (singleOrDefaultO d).FwdErr := fun _ _ => rfl
-theorem someOp_fwd {α} : (someOp : Op α Bool).FwdErr := fun _ _ => rfl
+theorem someOp_fwd_live {α} (e : Err) : ((someOp : Op α Bool).onError false e).calls = [.error e] := rfl
 theorem mapO_fwd {α β} (f : α → Except Err β) : (mapO f).FwdErr := fun _ _ => rfl
 theorem scanO_fwd {α β} (f : β → α → Except Err β) (seed : Option β) (inj : α → β) : (scanO f seed inj).FwdErr := fun _ _ => rfl
 
